@@ -82,17 +82,24 @@ Proof.
 Qed.
 
 (* reactive power: the applied sign is sign_q, the result sign is res_sign (dcline: q_from = - Qg) *)
-Lemma poly_qcost_partial t isq c0 c1 c2 q :
-  (isq = false -> c2 == 0) -> G17q t c1 = true ->
+Lemma poly_qcost t isq c0 c1 c2 q :
+  (isq = false -> c2 == 0) ->
   polycost (row_of (cells_of isq (sign_q t) c2 c1 c0)) (res_sign t * q) == user_poly c0 c1 c2 q.
+Proof.
+  intros Hq. rewrite polycost_cells by exact Hq. unfold user_poly. destruct t; cbn; ring.
+Qed.
+(* the reactive sign rule before the repair (dcline: +1) *)
+Lemma poly_qcost_old_partial t isq c0 c1 c2 q :
+  (isq = false -> c2 == 0) -> G17q_old t c1 = true ->
+  polycost (row_of (cells_of isq (sign_q_old t) c2 c1 c0)) (res_sign t * q) == user_poly c0 c1 c2 q.
 Proof.
   intros Hq HG. rewrite polycost_cells by exact Hq. unfold user_poly.
   destruct t; cbn in *; try ring.
   apply qeqb_eq in HG. rewrite HG. ring.
 Qed.
-Lemma poly_qcost_refuted :
+Lemma poly_qcost_old_refuted :
   exists t isq c0 c1 c2 q, (isq = false -> c2 == 0) /\
-    ~ polycost (row_of (cells_of isq (sign_q t) c2 c1 c0)) (res_sign t * q) == user_poly c0 c1 c2 q.
+    ~ polycost (row_of (cells_of isq (sign_q_old t) c2 c1 c0)) (res_sign t * q) == user_poly c0 c1 c2 q.
 Proof.
   exists Dcline, false, 0, 1, 0, 1. split; [reflexivity|]. vm_compute. discriminate.
 Qed.
@@ -101,28 +108,122 @@ Qed.
 Lemma sign_p_res_sign t : sign_p t = res_sign t.
 Proof. destruct t; reflexivity. Qed.
 
-(* one area [l, u, slope]: the row is the line through (l, s l slope) and (u, s u slope); evaluated at the
-   generator variable res_sign * p it gives slope * p, the user's function, for every element kind *)
+(* one area [l, u, slope]: evaluated at the generator variable res_sign * p the row gives slope * p,
+   the user's function, for every element kind *)
 Lemma pwl_single_area t l u sl p :
   ~ u == l ->
   exists v, obj_of_res (pwl_row t [(l, u, sl)]) (res_sign t * p) = Some v /\ v == user_pwl [(l, u, sl)] p.
 Proof.
-  intros Hne. unfold pwl_row, costs_from_areas. cbn [areas_go bind List.length].
-  change (Z.of_nat 4 / 2)%Z with 2%Z.
-  unfold obj_of_res, obj_row. cbn [g_model g_ncost g_c Z.eqb Pos.eqb].
-  unfold pwl_points. cbn [g_ncost g_c]. change (Z.to_nat 2) with 2%nat. cbn [pairs firstn].
-  destruct (qeqb u l) eqn:E; [apply qeqb_eq in E; contradiction|].
-  eexists; split; [reflexivity|].
-  unfold user_pwl, pwl_from. rewrite <- sign_p_res_sign. qnorm.
-  assert (u - l == 0 -> False) by (intros H; apply Hne; lra).
-  destruct t; cbn [sign_p]; field; exact H.
+  intros Hne.
+  assert (Hul : u - l == 0 -> False) by (intros H; apply Hne; lra).
+  assert (Hlu : - l - - u == 0 -> False) by (intros H; apply Hne; lra).
+  unfold pwl_row, costs_from_areas. cbn [areas_go bind].
+  destruct t; cbn [sign_p res_sign is_neg_et];
+    match goal with |- context [qltb ?a 0] => change (qltb a 0) with false || change (qltb a 0) with true end;
+    cbn [mirror pairs0 rev app map unpairs fst snd List.length];
+    change (Z.of_nat 4 / 2)%Z with 2%Z;
+    unfold obj_of_res, obj_row; cbn [g_model g_ncost g_c Z.eqb Pos.eqb];
+    unfold pwl_points; cbn [g_ncost g_c]; change (Z.to_nat 2) with 2%nat; cbn [pairs firstn].
+  1,2,5: (destruct (qeqb u l) eqn:E; [apply qeqb_eq in E; contradiction|];
+          eexists; split; [reflexivity|]; unfold user_pwl, pwl_from; qnorm; field; exact Hul).
+  all: (destruct (qeqb (qopp l) (qopp u)) eqn:E;
+        [apply qeqb_eq in E; revert E; qnorm; intros E; exfalso; apply Hne; lra|];
+        eexists; split; [reflexivity|]; unfold user_pwl, pwl_from; qnorm; field; exact Hlu).
 Qed.
 
-(* two areas of different slope on a load: the row is not the user's function *)
-Lemma pwl_neg_refuted :
+(* the rule before the repair: two areas of different slope on a load were not the user's function *)
+Lemma pwl_old_refuted :
   exists t pts p, consecutive pts = true /\
-    forall v, obj_of_res (pwl_row t pts) (res_sign t * p) = Some v -> ~ v == user_pwl pts p.
+    forall v, obj_of_res (pwl_row_old t pts) (res_sign t * p) = Some v -> ~ v == user_pwl pts p.
 Proof.
   exists Load, [(0, 5, 1); (5, 10, 3)], 6. split; [reflexivity|].
   intros v H. vm_compute in H. injection H as <-. vm_compute. discriminate.
+Qed.
+(* ... and now they are, on that witness *)
+Lemma pwl_witness_repaired :
+  exists v, obj_of_res (pwl_row Load [(0, 5, 1); (5, 10, 3)]) (res_sign Load * 6) = Some v
+            /\ v == user_pwl [(0, 5, 1); (5, 10, 3)] 6.
+Proof. eexists. split; [vm_compute; reflexivity | vm_compute; reflexivity]. Qed.
+
+(* two convex areas [l,m,s1], [m,u,s2] (s1 <= s2): for every element kind the cost variable of the row (the maximum
+   of the segment lines, evaluated at the generator variable res_sign * p) is the user's function *)
+Lemma qmax_cases x y : (qmax x y == x /\ y <= x) \/ (qmax x y == y /\ x <= y).
+Proof.
+  unfold qmax. destruct (qltb x y) eqn:E.
+  - right. apply qltb_lt in E. split; [reflexivity | lra].
+  - left. apply qltb_ge in E. split; [reflexivity | exact E].
+Qed.
+
+Lemma pwl_two_areas t l m u s1 s2 p :
+  l < m -> m < u -> s1 <= s2 ->
+  exists v, obj_of_res (pwl_row t [(l, m, s1); (m, u, s2)]) (res_sign t * p) = Some v
+            /\ v == user_pwl [(l, m, s1); (m, u, s2)] p.
+Proof.
+  intros Hlm Hmu Hs.
+  assert (Emm : qeqb m m = true) by (apply qeqb_eq; reflexivity).
+  assert (Eml : qeqb m l = false) by (destruct (qeqb m l) eqn:E; [apply qeqb_eq in E; lra | reflexivity]).
+  assert (Eum : qeqb u m = false) by (destruct (qeqb u m) eqn:E; [apply qeqb_eq in E; lra | reflexivity]).
+  assert (Eml' : qeqb (qopp m) (qopp u) = false).
+  { destruct (qeqb (qopp m) (qopp u)) eqn:E; [apply qeqb_eq in E; revert E; qnorm; intros; lra | reflexivity]. }
+  assert (Elm' : qeqb (qopp l) (qopp m) = false).
+  { destruct (qeqb (qopp l) (qopp m)) eqn:E; [apply qeqb_eq in E; revert E; qnorm; intros; lra | reflexivity]. }
+  assert (Huser : user_pwl [(l, m, s1); (m, u, s2)] p
+                  == if qltb p m then s1 * p else s1 * m + (p - m) * s2).
+  { unfold user_pwl, pwl_from. destruct (qltb p m); ring. }
+  unfold pwl_row, costs_from_areas. cbn [areas_go bind]. rewrite Emm. cbn [negb areas_go bind].
+  destruct t; cbn [sign_p res_sign is_neg_et];
+    match goal with |- context [qltb ?a 0] => change (qltb a 0) with false || change (qltb a 0) with true end;
+    cbn [mirror pairs0 rev app map unpairs fst snd List.length];
+    change (Z.of_nat 6 / 2)%Z with 3%Z;
+    unfold obj_of_res, obj_row; cbn [g_model g_ncost g_c Z.eqb Pos.eqb];
+    unfold pwl_points; cbn [g_ncost g_c]; change (Z.to_nat 3) with 3%nat; cbn [pairs firstn lines_max].
+  1,2,5: (rewrite Eml, Eum; eexists; split; [reflexivity|]; rewrite Huser;
+          match goal with |- qmax ?A ?B == _ =>
+            assert (HA : A == s1 * p) by (qnorm; field; lra);
+            assert (HB : B == s1 * m + (p - m) * s2) by (qnorm; field; lra);
+            destruct (qmax_cases A B) as [[E L]|[E L]]; rewrite E end;
+          destruct (qltb p m) eqn:Ep; [apply qltb_lt in Ep | apply qltb_ge in Ep | apply qltb_lt in Ep | apply qltb_ge in Ep];
+          rewrite ?HA, ?HB in *; nra).
+  all: (rewrite Eml', Elm'; eexists; split; [reflexivity|]; rewrite Huser;
+        match goal with |- qmax ?A ?B == _ =>
+          assert (HA : A == s1 * m + (p - m) * s2) by (qnorm; field; lra);
+          assert (HB : B == s1 * p) by (qnorm; field; lra);
+          destruct (qmax_cases A B) as [[E L]|[E L]]; rewrite E end;
+        destruct (qltb p m) eqn:Ep; [apply qltb_lt in Ep | apply qltb_ge in Ep | apply qltb_lt in Ep | apply qltb_ge in Ep];
+        rewrite ?HA, ?HB in *; nra).
+Qed.
+
+(* ---------------------------------------------------------------- regressions of the other repaired rules *)
+(* dcline: the row is the one of the from-bus gen's index label *)
+Lemma dcline_row_is_from_gen e el k lab :
+  index_of (dcl_index e) el 0 = Some k -> np_get (gen_labels e) (dcl_pos e k) = Some lab ->
+  get_gen_index e Dcline el = Ok (nonneg (lookup_get (lk_gen e) lab)).
+Proof. intros H1 H2. unfold get_gen_index. rewrite H1, H2. reflexivity. Qed.
+
+(* gens 0 and 2, one dcline (auxiliary gens get the labels 3 and 4): the old rule addressed the to-bus gen's row *)
+Definition env_gapped : env :=
+  {| lk_gen := Some [1; -1; 2; 3; 4]%Z; lk_sgen := None; lk_load := None; lk_storage := None; lk_ext := Some [0%Z];
+     n_gen_tab := 4; gen_labels := [0; 2; 3; 4]%Z; dcl_index := [0%Z]; ng := 5 |}.
+Lemma dcline_row_old_refuted :
+  get_gen_index_old env_gapped Dcline 0 = Ok (Some 3%Z) /\ get_gen_index env_gapped Dcline 0 = Ok (Some 4%Z).
+Proof. split; reflexivity. Qed.
+
+(* a constant reactive cost alone creates the reactive rows (it did not before) *)
+Lemma cq0_creates_q_rows c ws : ~ cq0 c == 0 -> q_costs [c] ws = true.
+Proof.
+  intros H. unfold q_costs. cbn [existsb]. unfold nz at 1.
+  destruct (qeqb (cq0 c) 0) eqn:E; [apply qeqb_eq in E; contradiction | reflexivity].
+Qed.
+Lemma cq0_old_refuted : exists c, ~ cq0 c == 0 /\ q_costs_old [c] [] = false.
+Proof.
+  exists {| pc_et := Gen; pc_el := 0; cp0 := 0; cp1 := 1; cp2 := 0; cq0 := 2; cq1 := 0; cq2 := 0 |}.
+  split; [vm_compute; discriminate | reflexivity].
+Qed.
+
+(* every gencost row is evaluated at its own variable; before the repair a reactive cost-variable row was not *)
+Lemma var_index_own ngn i r : var_index ngn i r = i.
+Proof. reflexivity. Qed.
+Lemma var_index_old_refuted : exists ngn i r, var_index_old ngn i r <> i.
+Proof.
+  exists 2%nat, 3%nat, {| g_model := 1; g_ncost := 3; g_c := [] |}. vm_compute. discriminate.
 Qed.
